@@ -193,18 +193,24 @@ fn norm_list(item: &Ty, v: &Val, any_as_null: bool) -> Option<Val> {
   match v {
     Val::List(items) => {
       let mut out = vec![];
+      // a null item leaves the outcome open - unless another item decides it: one non-conforming item and the list does not conform
+      let mut open = false;
       for it in items {
         if *it == Val::Null {
-          return None;
+          open = true;
+          continue;
         }
-        let n = norm_mode(item, it, any_as_null)?;
-        if n == Val::Null {
-          // a non-conforming item: the list does not conform
-          return Some(Val::Null);
+        match norm_mode(item, it, any_as_null) {
+          None => open = true,
+          Some(Val::Null) => return Some(Val::Null),
+          Some(n) => out.push(n),
         }
-        out.push(n);
       }
-      Some(Val::List(out))
+      if open {
+        None
+      } else {
+        Some(Val::List(out))
+      }
     }
     _ => Some(Val::Null),
   }
@@ -381,6 +387,9 @@ fn vals(ty: &Ty) -> Vec<(String, Val)> {
       for (l, v) in vals(&it) {
         out.push((format!("[{}]", l), Val::List(vec![v.clone()])));
         out.push((format!("[conforming, {}]", l), Val::List(vec![good.clone(), v.clone()])));
+        // a null item before the varied one: the items after a null item are judged like the others
+        out.push((format!("[null, {}]", l), Val::List(vec![Val::Null, v.clone()])));
+        out.push((format!("[conforming, null, {}]", l), Val::List(vec![good.clone(), Val::Null, v.clone()])));
       }
       out.push(("empty-list".into(), Val::List(vec![])));
       out.push(("bare-conforming-item".into(), good.clone()));
